@@ -417,6 +417,23 @@ func Gen(t *rapid.T) *Spec {
 			m.Zip64ExtraLast = true
 		}
 	}
+	// one member whose local header (30 + name + extra) ends around 64 KiB: the length
+	// fields are 16 bits wide each, their sum is not
+	if n > 0 && chance(t, 5, "hugeextra") {
+		m := &s.Members[rapid.IntRange(0, n-1).Draw(t, "hugeextrapick")]
+		forced := 0
+		if m.Zip64Local {
+			forced = 20
+		}
+		target := pick(t, []int{65535, 65536, 65537, 65600, 30 + len(m.Name) + 65535}, "hugeextratarget")
+		el := target - 30 - len(m.Name) - forced
+		if el+forced > 65535 {
+			el = 65535 - forced
+		}
+		if el >= 4 {
+			m.ExtraLocal = ExtraRecord(0x9901, fill(2, rapid.Uint32().Draw(t, "hugeextraseed"), el-4))
+		}
+	}
 	if chance(t, 10, "gaps") {
 		hit := false
 		for i := range s.Members {
@@ -467,7 +484,7 @@ var AllClasses = []string{
 	"empty", "desc32sig", "desc32nosig", "desc64sig", "desc64nosig",
 	"zip64local", "zip64central", "zip64eocd", "extra", "mcomment",
 	"acomment", "prefix", "gap", "cdperm", "dir", "deflate", "stored",
-	"zerolen", "utf8", "longname",
+	"zerolen", "utf8", "longname", "hugeextra",
 }
 
 // Classes returns the shape labels that apply to the spec, in AllClasses order.
@@ -492,6 +509,7 @@ func (s *Spec) Classes() []string {
 		set["zerolen"] = set["zerolen"] || (!m.IsDir && len(m.Data) == 0)
 		set["utf8"] = set["utf8"] || m.UTF8
 		set["longname"] = set["longname"] || len(m.Name) >= LongNameMin
+		set["hugeextra"] = set["hugeextra"] || len(m.ExtraLocal) >= 60000
 	}
 	set["zip64eocd"] = s.Zip64EOCD
 	set["acomment"] = s.ArchiveComment != ""
